@@ -249,7 +249,7 @@ class MultipartDecoder:
         for line in data.splitlines():
             line = line.strip()
             if line != b"":
-                name, value = safe_decode(line, self.charset).split(":", 1)
+                name, _, value = safe_decode(line, self.charset).partition(":")
                 headers.append((name.strip(), value.strip()))
         return Headers(headers)
 
